@@ -386,3 +386,7 @@ func countPoints(m *sk.Model) int {
 	}
 	return n
 }
+
+func modelsPoint(sd seriesDef, field string, v sk.Val, t int64) []models.Point {
+	return []models.Point{sk.Point(sd.Name, sd.Tags, map[string]sk.Val{field: v}, t)}
+}
